@@ -366,6 +366,30 @@ def r3_no_hidden_acceptance_logic(ctx, d) -> None:
                              "that the published schema is derived from", node)
             else:
                 ctx.ok("C17.R3", c.qualname, "fields only")
+    # a `required` override in json_schema_extra only edits the schema: the decoder must require the field too
+    for m in d.mods.values():
+        for c in m.classes.values():
+            cfg = c.class_assigns.get("model_config")
+            if not (d.is_model(c) and isinstance(cfg, ast.Call)):
+                continue
+            extra = next((kw.value for kw in cfg.keywords if kw.arg == "json_schema_extra"), None)
+            if not isinstance(extra, ast.Dict):
+                continue
+            req = next((v for k, v in zip(extra.keys, extra.values) if isinstance(k, ast.Constant) and k.value == "required"), None)
+            if req is None:
+                continue
+            if not (isinstance(req, (ast.List, ast.Tuple)) and all(isinstance(e, ast.Constant) and isinstance(e.value, str) for e in req.elts)):
+                ctx.broken(f"{c.qualname}: json_schema_extra['required'] is not a literal list of names")
+            own = {f.name: (k, f) for k in reversed(c.mro) for f in k.fields if not f.classvar}
+            for e in req.elts:
+                if e.value not in own:
+                    continue        # a tag of the union's members (RootModel): required by the discriminator itself
+                k, f = own[e.value]
+                fi = d.field_info(k.module, f.node.value)
+                has_default = f.node.value is not None and (fi is None or "default" in fi or "default_factory" in fi)
+                ctx.check(not has_default, "C17.R3", f"{c.qualname}.{e.value}: required by the schema and by the decoder", m.path, f.node.lineno,
+                          f"the published schema lists `{e.value}` as required (json_schema_extra override) but the model gives it a default "
+                          f"(`{u(f.node.value)[:60]}`): a document without `{e.value}` is accepted by the decoder and rejected by the schema", f.node)
     tys_mod = d.mods["hugr._serialization.tys"]
     wv = tys_mod.functions.get("_json_custom_error_validator")
     if wv is not None:
